@@ -233,6 +233,9 @@ def scratch_root() -> str:
 
 def _worker_init(module_name: str, base_tmp: str) -> None:
     global _WORK_MODULE, _WORKER_TMP
+    import warnings
+
+    warnings.simplefilter("ignore")
     _WORK_MODULE = importlib.import_module(module_name)
     _WORKER_TMP = tempfile.mkdtemp(prefix=f"w{os.getpid()}-", dir=base_tmp)
     tempfile.tempdir = _WORKER_TMP
